@@ -57,8 +57,10 @@ theorem NodeFacts.mono {ts : List Token} {g g' : SpanKey → Option Span} {env e
     (h : NodeFacts ts g env stack path v ks) : NodeFacts ts g' env' stack path v ks := by
   cases v with
   | element id =>
-    obtain ⟨h1, e, sp, hm, hne, h2⟩ := h
-    exact ⟨h1.mono he (fun kind _ => hg kind), e, sp, hm, hne, by rw [hg]; exact h2⟩
+    obtain ⟨h1, e, sp, hm, hne, h2, h3⟩ := h
+    refine ⟨h1.mono he (fun kind _ => hg kind), e, sp, hm, hne, by rw [hg]; exact h2, fun p l hpl => ?_⟩
+    obtain ⟨ps, ls, wsp, a, b, c, d⟩ := h3 p l hpl
+    exact ⟨ps, ls, wsp, a, by rw [hg]; exact b, c, d⟩
   | text s =>
     obtain ⟨run, sp, h1, h2, h3, h4⟩ := h
     exact ⟨run, sp, h1, h2, h3, by rw [hg]; exact h4⟩
@@ -134,6 +136,56 @@ theorem stackDesc_mono {ts : List Token} {g g' : SpanKey → Option Span} {env e
     ⟨frameDesc_mono he (fun k hk => hg k (.inl (.inl hk)))
         (fun kind hkind => hg ⟨framesPath rest, kind⟩ (.inr (.inl ⟨rfl, hkind⟩))) a,
       stackDesc_mono he rest _ (fun k hk => hg k (prot_cons hk)) b⟩
+
+/-- `PfxDesc` reads the span map only at the `ElementStart` keys of the open frames. -/
+theorem pfxDesc_mono {ts : List Token} {g g' : SpanKey → Option Span} {env env' : Env} (he : EnvApp env env') :
+    ∀ (l : List Frame) (ops : List Str), (∀ k, OwnKey l k → g' k = g k) →
+      PfxDesc ts g env l ops → PfxDesc ts g' env' l ops
+  | [], _, _, _ => trivial
+  | f :: rest, ops, hg, h => by
+    unfold PfxDesc at h ⊢
+    cases hv : f.value with
+    | element id =>
+      rw [hv] at h
+      simp only at h ⊢
+      obtain ⟨⟨p, l, sp, a, b, c, ns, d⟩, h2⟩ := h
+      obtain ⟨z, hz⟩ := he.nm
+      exact ⟨⟨p, l, sp, a, by rw [hg _ (.inl ⟨rfl, by simp⟩)]; exact b, c, ns,
+        by rw [hz]; exact getElem?_append_of_some d⟩,
+        pfxDesc_mono he rest _ (fun k hk => hg k (.inr hk)) h2⟩
+    | document => rw [hv] at h; exact pfxDesc_mono he rest _ (fun k hk => hg k (.inr hk)) h
+    | text _ => rw [hv] at h; exact pfxDesc_mono he rest _ (fun k hk => hg k (.inr hk)) h
+    | comment _ => rw [hv] at h; exact pfxDesc_mono he rest _ (fun k hk => hg k (.inr hk)) h
+    | pi _ _ => rw [hv] at h; exact pfxDesc_mono he rest _ (fun k hk => hg k (.inr hk)) h
+    | «attribute» _ _ => rw [hv] at h; exact pfxDesc_mono he rest _ (fun k hk => hg k (.inr hk)) h
+    | «namespace» _ _ => rw [hv] at h; exact pfxDesc_mono he rest _ (fun k hk => hg k (.inr hk)) h
+
+/-- Only the value of the top frame matters. -/
+theorem pfxDesc_head {ts : List Token} {g : SpanKey → Option Span} {env : Env} {f f' : Frame} {rest : List Frame}
+    {ops : List Str} (hv : f'.value = f.value) (h : PfxDesc ts g env (f :: rest) ops) :
+    PfxDesc ts g env (f' :: rest) ops := by
+  unfold PfxDesc at h ⊢
+  rw [hv]
+  exact h
+
+theorem pfxDesc_element {ts : List Token} {g : SpanKey → Option Span} {env : Env} {f : Frame} {rest : List Frame}
+    {ops : List Str} {id : Nat} (hv : f.value = .element id) (h : PfxDesc ts g env (f :: rest) ops) :
+    (∃ p l sp, Token.elementStart p l sp ∈ ts ∧
+      g ⟨framesPath rest, .elementStart⟩ = some (Span.fromPrefixName p l) ∧ ops.head? = some p.text ∧
+      ∃ ns, env.names[id]? = some (l.text, ns)) ∧ PfxDesc ts g env rest ops.tail := by
+  unfold PfxDesc at h
+  rw [hv] at h
+  exact h
+
+theorem pfxDesc_of_element {ts : List Token} {g : SpanKey → Option Span} {env : Env} {f : Frame} {rest : List Frame}
+    {ops : List Str} {id : Nat} (hv : f.value = .element id)
+    (h : (∃ p l sp, Token.elementStart p l sp ∈ ts ∧
+      g ⟨framesPath rest, .elementStart⟩ = some (Span.fromPrefixName p l) ∧ ops.head? = some p.text ∧
+      ∃ ns, env.names[id]? = some (l.text, ns)) ∧ PfxDesc ts g env rest ops.tail) :
+    PfxDesc ts g env (f :: rest) ops := by
+  unfold PfxDesc
+  rw [hv]
+  exact h
 
 /-! ### Paths -/
 
